@@ -248,78 +248,178 @@ def mp1(ctx, R):
 
 @rule("MP3", "scaled accessors apply the channel's scaling exactly once, raw accessors never", floor=8)
 def mp3(ctx, R):
+    """Every accessor is put in symbolic normal form (locals substituted, helpers such as _scale_data inlined).  Each possible
+    result of a scaled accessor must be an empty array, the cached scaled chunk, `scaling.scale(raw)` for a raw value that is not
+    itself scaled, or `raw.data` selected by `scaling is None`; raw accessors must contain no scale call.  The function(s) holding
+    the scale/raise/raw decision are evaluated as a truth table over (scaling defined?, DAQmx scaler data present?)."""
+    from .sym import Sym, show, eval_cond
+    from .sem import leaves, flat_conds, find, W, match, calls_to, call_arg, mentions
     prog = ctx.prog
     ch = prog.cls("tdms.TdmsChannel")
-    # read_data: scaled branch / raw branch
-    rd = prog.func("tdms.TdmsChannel.read_data")
-    cfg = ctx.cfg(rd)
-    from .rules_resource import _controlling_tests
-    n_ret = 0
-    for r in cfg.where(lambda n: n.kind == "return" and n.ast.value is not None):
-        tests = _controlling_tests(cfg, r)
-        txt = unparse(r.ast.value)
-        under_scaled = any(unparse(t.ast) == "scaled" for t in tests)
-        under_empty = any("raw_data is None" in unparse(t.ast) for t in tests)
-        if under_empty:
-            continue
-        n_ret += 1
-        if under_scaled:
-            R.check("self._scale_data(" in txt, "tdms.TdmsChannel.read_data::scaled branch", rd.where(r.ast),
-                    "returns self._scale_data(raw_data)", "the scaled branch returns `%s` without applying the scaling" % txt)
+
+    def is_scaling_ref(x):
+        return x == ("self", "_scaling") or (isinstance(x, tuple) and len(x) == 3 and x[0] == "attr" and x[2] == "_scaling")
+
+    def strip_index(v):
+        while isinstance(v, tuple) and v and v[0] == "sub":
+            v = v[1]
+        return v
+
+    def has_scale_call(v):
+        return bool(find(v, ("method", "scale", W(), W(), W())))
+
+    def is_empty_array(v):
+        return isinstance(v, tuple) and v and v[0] == "call" and str(v[1]).split(".")[-1] in ("empty", "zeros", "array") and not has_scale_call(v)
+
+    def classify(conds, leaf):
+        """-> ('empty'|'cached'|'scaled'|'raw-because-no-scaling'|'unscaled'|'double'|'other', detail)"""
+        v = strip_index(leaf)
+        if is_empty_array(v):
+            return "empty", None
+        if v == ("self", "_cached_chunk"):
+            return "cached", None
+        b = match(("method", "scale", W("S"), (W("X"),), ()), v)
+        if b is not None and is_scaling_ref(b["S"]):
+            return ("double" if has_scale_call(b["X"]) else "scaled"), b["X"]
+        fc = flat_conds(conds)
+        if isinstance(v, tuple) and v and v[0] == "attr" and v[2] in ("data", "scaler_data"):
+            if any(c[0] == "cmp" and c[1] == "is" and is_scaling_ref(c[2]) and c[3] == ("const", None) for c in fc if isinstance(c, tuple) and len(c) == 4):
+                return "raw-because-no-scaling", v[1]
+            return "unscaled", v[1]
+        return "other", v
+
+    def all_leaves(val, conds=()):
+        for cs, leaf in leaves(val, conds):
+            v = strip_index(leaf)
+            if isinstance(v, tuple) and v and v[0] == "phi":
+                for x in all_leaves(v, cs):
+                    yield x
+            else:
+                yield cs, leaf
+
+    def check_scaled(key, f, val, where):
+        kinds = {}
+        for conds, leaf in all_leaves(val):
+            k, d = classify(conds, leaf)
+            kinds.setdefault(k, []).append(leaf)
+        bad = [k for k in kinds if k in ("unscaled", "double")]
+        if bad:
+            R.violation(key, where, "%s: `%s`" % ("the scaling is applied twice" if "double" in bad else "a result is raw data although a scaling may be defined "
+                                                  "(not selected by `scaling is None`)", show(kinds[bad[0]][0])[:160]))
+        elif "scaled" not in kinds:
+            if "other" in kinds:
+                R.undecided(key, where, "result form `%s` not understood" % show(kinds["other"][0])[:120])
+            else:
+                R.violation(key, where, "no result applies the channel's scaling (results: %s)" % sorted(kinds))
+        elif "other" in kinds:
+            R.undecided(key, where, "a result `%s` is not understood" % show(kinds["other"][0])[:120])
         else:
-            R.check("_scale_data" not in txt and ".scale(" not in txt, "tdms.TdmsChannel.read_data::raw branch `%s`" % txt[:30], rd.where(r.ast),
-                    "returns raw data", "the unscaled branch applies a scaling")
-    if n_ret < 2:
-        raise AnchorMissing("tdms.TdmsChannel.read_data: scaled and raw returns")
+            R.ok(key, where, "results: %s" % ", ".join(sorted(kinds)))
+        return kinds
+    # read_data: scaled / raw
+    rd = prog.func("tdms.TdmsChannel.read_data")
+    sp = [p for p in rd.params if p == "scaled"]
+    if not sp:
+        raise AnchorMissing("tdms.TdmsChannel.read_data: parameter `scaled`")
+    v_scaled = Sym(prog, rd, ch).function_value({"scaled": ("const", True)})
+    v_raw = Sym(prog, rd, ch).function_value({"scaled": ("const", False)})
+    from .sym import simplify
+    v_scaled = simplify(v_scaled, lambda c: None)
+    v_raw = simplify(v_raw, lambda c: None)
+    if v_scaled[0] == "opaque" or v_raw[0] == "opaque":
+        raise AnchorMissing("tdms.TdmsChannel.read_data: body in normal form")
+    check_scaled("tdms.TdmsChannel.read_data::scaled branch", rd, v_scaled, rd.where())
+    R.check(not has_scale_call(v_raw), "tdms.TdmsChannel.read_data::raw branch", rd.where(), "returns raw data", "the unscaled branch applies a scaling")
     R.check(rd.defaults.get("scaled") is not None and prog.try_fold(rd.defaults["scaled"]) is True, "tdms.TdmsChannel.read_data::scaled default", rd.where(),
             "scaled=True by default", "default of `scaled` changed")
     d = prog.func("tdms.TdmsChannel.data")
-    rets = [n for n in walk_body(d.node) if isinstance(n, ast.Return)]
-    R.check(any(unparse(r.value) == "self._scale_data(self._raw_data)" for r in rets), "tdms.TdmsChannel.data", d.where(),
-            "returns self._scale_data(self._raw_data)", "the data property does not return the scaled raw data")
+    check_scaled("tdms.TdmsChannel.data", d, Sym(prog, d, ch).function_value(), d.where())
     ri = prog.func("tdms.TdmsChannel._read_at_index")
-    sc = [n for n in walk_body(ri.node) if isinstance(n, ast.Assign) and "self._scale_data(" in unparse(n.value)]
-    ok = False
-    if sc and isinstance(sc[0].targets[0], ast.Name):
-        nm = sc[0].targets[0].id
-        rets = [n for n in walk_body(ri.node) if isinstance(n, ast.Return) and n.value is not None]
-        cache_from_scaled = any(isinstance(n, ast.Assign) and dotted(n.targets[0]) == "self._cached_chunk" and dotted(n.value) == nm for n in walk_body(ri.node))
-        ok = cache_from_scaled and all((nm in _names(r.value)) or ("self._cached_chunk" in unparse(r.value)) for r in rets)
-    R.check(ok, "tdms.TdmsChannel._read_at_index", ri.where(), "returns elements of the scaled chunk (fresh or cached)",
-            "integer indexing returns unscaled data or caches an unscaled chunk")
+    check_scaled("tdms.TdmsChannel._read_at_index", ri, Sym(prog, ri, ch).function_value(), ri.where())
+    # what is stored in the chunk cache is scaled
+    stores = []
+    for m in ch.methods.values():
+        for n in walk_body(m.node):
+            if isinstance(n, ast.Assign) and any(dotted(t) == "self._cached_chunk" for t in n.targets):
+                stores.append((m, n))
+    ok_store = True
+    n_data_stores = 0
+    for m, n in stores:
+        sy = Sym(prog, m, ch)
+        env, _g = sy.env_at(n)
+        val = sy.expr(n.value, env)
+        if val == ("const", None):
+            continue
+        n_data_stores += 1
+        vals = [val]
+        if val[0] == "param":
+            vals = []
+            for caller in ch.methods.values():
+                for c in calls_to(prog, caller, m.qual, ch):
+                    s2 = Sym(prog, caller, ch)
+                    e2, _ = s2.env_at(c)
+                    a = call_arg(prog, c, m, val[1], s2, e2)
+                    if a is not None:
+                        vals.append(a)
+        for x in vals:
+            ks = {classify(conds, leaf)[0] for conds, leaf in all_leaves(x)}
+            if not ks or not ks <= {"scaled", "raw-because-no-scaling"}:
+                ok_store = False
+        if not vals:
+            ok_store = False
+    R.check(ok_store and n_data_stores >= 1, "tdms.TdmsChannel._read_at_index::cache", ri.where(), "the cached chunk is the scaled chunk",
+            "integer indexing caches an unscaled chunk")
     rs = prog.func("tdms.TdmsChannel._read_slice")
-    calls = [c for c in walk_body(rs.node) if isinstance(c, ast.Call) and call_name(c) == "self.read_data"]
-    R.check(bool(calls) and all(not any(k.arg == "scaled" for k in c.keywords) and len(c.args) <= 2 for c in calls), "tdms.TdmsChannel._read_slice", rs.where(),
-            "slices read through read_data with scaling", "slices are read with scaled overridden")
+    calls = calls_to(prog, rs, rd.qual, ch)
+    sy = Sym(prog, rs, ch)
+    oks = []
+    for c in calls:
+        env, _g = sy.env_at(c)
+        a = call_arg(prog, c, rd, "scaled", sy, env)
+        oks.append(a == ("const", True))
+    R.check(bool(calls) and all(oks), "tdms.TdmsChannel._read_slice", rs.where(), "slices read through read_data with scaling", "slices are read with scaled overridden")
     for q in ("tdms.TdmsChannel.raw_data", "tdms.TdmsChannel.raw_scaler_data"):
         f = prog.func(q)
-        t = unparse(f.node)
-        R.check("_scale_data" not in t and ".scale(" not in t and "self.data" not in t.replace("self.data_type", ""), q, f.where(),
-                "returns stored raw data", "a raw accessor applies scaling")
-    # sibling three-way decisions
-    def shape(f, scale_name, raw_expr):
-        out = []
-        for n in f.node.body:
-            if isinstance(n, ast.If) and (scale_name + " is not None") in unparse(n.test):
-                cur = n
-                while True:
-                    test = unparse(cur.test).replace(raw_expr, "<raw>").replace(scale_name, "<scale>")
-                    act = cur.body[0]
-                    a = "raise" if isinstance(act, ast.Raise) else unparse(act).replace(raw_expr, "<raw>").replace(scale_name, "<scale>")
-                    out.append((test, a))
-                    if len(cur.orelse) == 1 and isinstance(cur.orelse[0], ast.If):
-                        cur = cur.orelse[0]
+        v = Sym(prog, f, ch).function_value()
+        R.check(not has_scale_call(v) and not mentions(v, ("self", "data")), q, f.where(), "returns stored raw data", "a raw accessor applies scaling")
+    cd = prog.func("tdms.ChannelDataChunk._data")
+    check_scaled("tdms.ChannelDataChunk._data", cd, Sym(prog, cd, cd.cls).function_value(), cd.where())
+    # the decision itself: (scaling defined?, scaler data present?) -> scale / error / raw
+    deciders = [f for f in prog.functions.values() if f.module.name == "tdms" and any(
+        isinstance(c, ast.Call) and isinstance(c.func, ast.Attribute) and c.func.attr == "scale" for c in walk_body(f.node))]
+    if not deciders:
+        raise AnchorMissing("tdms: function applying scaling.scale")
+    for f in sorted(deciders, key=lambda f: f.qual):
+        paths = Sym(prog, f, f.cls).function_paths()
+        table = {}
+        for a in (True, False):        # scaling is None?
+            for b in (True, False):    # scaler data present?
+                def orc(c, a=a, b=b):
+                    if isinstance(c, tuple) and len(c) == 4 and c[0] == "cmp" and c[1] == "is" and is_scaling_ref(c[2]) and c[3] == ("const", None):
+                        return a
+                    if isinstance(c, tuple) and len(c) == 3 and c[0] == "attr" and c[2] == "scaler_data":
+                        return b
+                    if isinstance(c, tuple) and len(c) == 4 and c[0] == "cmp" and c[1] == "is" and c[3] == ("const", None) and isinstance(c[2], tuple) \
+                            and c[2][0] == "attr" and c[2][2] in ("data", "scaler_data"):
+                        return False      # not the empty-chunk case
+                    return None
+                outs = set()
+                for guards, val, _e in paths:
+                    vals = [eval_cond(g, orc) for g in guards]
+                    if any(x is False for x in vals):
+                        continue
+                    if val is None:
+                        outs.add("none")
+                    elif val[0] == "raise":
+                        outs.add("raise")
                     else:
-                        if cur.orelse:
-                            a = cur.orelse[0]
-                            out.append(("else", "raise" if isinstance(a, ast.Raise) else unparse(a).replace(raw_expr, "<raw>").replace(scale_name, "<scale>")))
-                        break
-        return out
-    s1 = shape(prog.func("tdms.TdmsChannel._scale_data"), "scale", "raw_data")
-    s2 = shape(prog.func("tdms.ChannelDataChunk._data"), "scale", "self._raw_data")
-    R.check(bool(s1) and s1 == s2, "tdms.TdmsChannel._scale_data / tdms.ChannelDataChunk._data::sibling decision", prog.func("tdms.ChannelDataChunk._data").where(),
-            "same three-way decision (scaling present -> scale; DAQmx without scaling -> error; else raw)",
-            "the channel-level and the chunk-level scaling decisions differ: %s vs %s" % (s1, s2))
+                        outs.add(classify((), val)[0] if classify((), val)[0] != "unscaled" else "raw")
+                table[(a, b)] = outs
+        want = {(False, True): {"scaled"}, (False, False): {"scaled"}, (True, True): {"raise"}, (True, False): {"raw"}}
+        ok = all(table[k] == want[k] for k in want)
+        R.check(ok, "%s::decision" % f.qual, f.where(), "scaling present -> scale; DAQmx without scaling -> error; else raw",
+                "the scaling decision is %s (expected: scaling defined -> scale; no scaling and DAQmx scaler data -> error; no scaling -> raw data)" % (
+                    {("no scaling" if a else "scaling", "scaler data" if b else "plain"): sorted(v) for (a, b), v in table.items()}))
 
 
 def _reader_calls_under(ctx, fi, facts, seen, chain):
